@@ -342,7 +342,7 @@ static void exec_op(struct vt_line *L)
 {
 	const char *op = L->tok[0];
 	long long a1 = vt_argi(L, 1);
-	alarm(10);
+	alarm(20);
 	if (!strcmp(op, "Connect")) { do_connect(L->tok[1], (int)vt_argi(L, 2)); return; }
 	if (!strcmp(op, "Reset")) { do_reset(); stall_hold = 0; vt_simple("Reset"); return; }
 	if (!strcmp(op, "StallHold")) { stall_hold = (int)a1 < 0 ? 0 : (int)a1 > 2000 ? 2000 : (int)a1; return; }
@@ -378,7 +378,8 @@ static void exec_op(struct vt_line *L)
 				 * request channel before/after (projection) is what the trace carries in "o" */
 				memset(rbuf, 0, 32);
 				long before = svc->funcs.q_len_get(&conn->request);
-				rc = qb_ipcc_sendv_recv(cli, iov, 2, rbuf, maxmsg, 0);
+				/* optional 2nd argument: timeout in ms (real time; the server does not run meanwhile: a slow server) */
+				rc = qb_ipcc_sendv_recv(cli, iov, 2, rbuf, maxmsg, L->n > 2 ? (int32_t)vt_argi(L, 2) : 0);
 				long after = svc->funcs.q_len_get(&conn->request);
 				if (after > before) nacc_req++;
 				last_rc = rc;
